@@ -20,7 +20,7 @@ def structCode : Nat := 1
 /-- selector value of a dynamically-typed field: an enumeration or a text string -/
 inductive Key where
   | enum (n : Nat)
-  | str (s : String)
+  | str (s : Bytes)      -- the UTF-8 bytes of the text (Go strings are byte strings)
   deriving DecidableEq, Repr, Inhabited
 
 /-- the internal any-tag marker, `ANY_TAG` -/
